@@ -297,7 +297,7 @@ def make_builtins(importer):
     d = dict(vars(_b))
     d.update({
         "int": int_, "bool": bool_, "float": float_, "str": str_,
-        "bytes": symbytes.bytes_, "bytearray": symbytes.bytearray_,
+        "bytes": symbytes.bytes_, "bytearray": symbytes.bytearray_, "memoryview": symbytes.memoryview_,
         "dict": symdict.dict_, "set": symdict.set_,
         "min": min_, "max": max_, "hex": hex_, "round": round_, "range": range_,
         "__import__": importer,
